@@ -57,7 +57,7 @@ func replaySpecies(raw json.RawMessage, rep *vhu.Report, t *tally) (bad string, 
 		return keyCase{int(o.Fitness), int(hi)}
 	}
 	sp := genetics.NewSpecies(7)
-	if sp.Size() != 0 || speciesFirstOrganism(sp) != nil || sp.Age != 1 {
+	if sp.Size() != 0 || sp.VerifFirstOrganism() != nil || sp.Age != 1 {
 		bad += "a new species is not empty with age 1; "
 	}
 	sp.Age, sp.AgeOfLastImprovement = c.Par.Age, c.Par.Imp
@@ -74,7 +74,7 @@ func replaySpecies(raw json.RawMessage, rep *vhu.Report, t *tally) (bad string, 
 			case "add":
 				sp.VerifAddOrganism(orgs[o.K-1])
 			case "remove":
-				ok, err := speciesRemoveOrganism(sp, orgs[o.K-1])
+				ok, err := sp.VerifRemoveOrganism(orgs[o.K-1])
 				cls = errClass(err)
 				if ok != (err == nil) {
 					bad += where + fmt.Sprintf("removeOrganism returned (%v, %v); ", ok, err)
@@ -127,14 +127,14 @@ func replaySpecies(raw json.RawMessage, rep *vhu.Report, t *tally) (bad string, 
 			bad += where + fmt.Sprintf("Size() %d want %d; ", sp.Size(), e.Size)
 			break
 		}
-		first := speciesFirstOrganism(sp)
+		first := sp.VerifFirstOrganism()
 		switch {
 		case len(e.FirstKey) == 0 && first != nil:
 			bad += where + "firstOrganism is not nil on an empty species; "
 		case len(e.FirstKey) == 1 && (first == nil || keyOf(first) != e.FirstKey[0] || (e.Exact && idOf[first] != e.First)):
 			bad += where + fmt.Sprintf("firstOrganism is organism %d, specification gives %d with key %v; ", idOf[first], e.First, e.FirstKey)
 		}
-		if li := speciesLastImproved(sp); li != e.LastImp {
+		if li := sp.VerifLastImproved(); li != e.LastImp {
 			bad += where + fmt.Sprintf("lastImproved %d want %d; ", li, e.LastImp)
 		}
 		if bad != "" {
